@@ -402,7 +402,7 @@ class World:
         self.engines = {"sql": self.sql, "it": self.it, "it2": self.it2}
         for eng in (self.it, self.it2):
             for fname in UDFS:
-                if fname == "only2" and eng is not self.it2:
+                if fname == "bitlen" or (fname == "only2" and eng is not self.it2):
                     continue          # a function only the upstream engine of an it2 -> it transfer knows
                 eng.functions[fname] = self._make_udf(fname)
         for fname in ("inc", "dbl", "itonly"):
